@@ -501,7 +501,14 @@ func (c *gctx) bigList(res *Result, types []uint16, by map[uint16][]Format) {
 		slots = append(slots, slot{big: pick()})
 	case "many-subtables":
 		addSmall(nSmall(0, 3))
-		slots = append(slots, slot{many: rapid.IntRange(100, 2500).Draw(t, "nTinySubtables")})
+		if c.skip(SiteSubtableOffset) {
+			// few enough to stay far below 64 KiB per lookup
+			slots = append(slots, slot{many: rapid.IntRange(20, 40).Draw(t, "nTinySubtablesFew")})
+		} else {
+			// may or may not exceed 64 KiB within the one lookup
+			res.Sites = append(res.Sites, SiteSubtableOffset)
+			slots = append(slots, slot{many: rapid.IntRange(100, 2500).Draw(t, "nTinySubtables")})
+		}
 		addSmall(nSmall(0, 3))
 		if len(bigs) > 0 && c.chance("manyPlusBig", 1, 2) {
 			slots = append(slots, slot{big: pick()})
